@@ -2,6 +2,7 @@ package rules
 
 import (
 	"fmt"
+	"go/token"
 	"go/types"
 	"sort"
 	"strings"
@@ -318,6 +319,28 @@ func staleGuarded(call ssa.CallInstruction) bool {
 	fn := call.Parent()
 	cd := ssau.ControlDeps(fn)
 	for _, d := range ssau.TransitiveControlDeps(cd, call.Block()) {
+		cond := d.If().Cond
+		if u, isU := cond.(*ssa.UnOp); isU && u.Op == token.NOT {
+			cond = u.X
+		}
+		// the staleness test as a predicate of the database: db.indexIsCurrent()
+		if pc, isCall := cond.(*ssa.Call); isCall {
+			if h := pc.Common().StaticCallee(); h != nil && h.Blocks != nil && h.Signature.Recv() != nil && ssau.NamedOf(h.Signature.Recv().Type()) == load.ModulePath+"/internal/database.Database" {
+				tests := false
+				ssau.ForEachInstr(h, false, func(in ssa.Instruction) {
+					if bo, ok := in.(*ssa.BinOp); ok {
+						for _, v := range []ssa.Value{bo.X, bo.Y} {
+							if _, ok := ssau.IsFieldLoad(v, load.ModulePath+"/internal/database.Database", "uIndex"); ok {
+								tests = true
+							}
+						}
+					}
+				})
+				if tests {
+					return true
+				}
+			}
+		}
 		_, x, y, ok := ssau.CondOf(d.If().Cond)
 		if !ok {
 			continue
